@@ -728,12 +728,25 @@ def c04(ctx):
     sv(binary, ["rt", "--family", "turtle", "--n", n, "--seed", ctx.seed, "--out", tr2], ctx=ctx, timeout=6000)
     trace = rt_validate(ctx, tr2, "random")
     ctx.samples += [{"config": [e["fmt"], e["pretty"], e["pm"], e["indent"]], "in": show_quads(e["in"]), "document": uncps(e["text"])} for e in trace[40:900:400] if e["ev"] == "RT"]
+    # (4) the prefix maps the serializer abbreviates IRIs with: Prefix.tla's laws on every small map, and the real slice implementation
+    #     on that universe (get_namespace, get_checked_prefixed_pair with two suffix checks)
+    model_check(ctx, "MC_Prefix", workers=4, timeout=600)
+    tr3 = os.path.join(ctx.traces, "prefix.ndjson")
+    sv(binary, ["prefix", "--stride", 5 if ctx.quick() else 1, "--out", tr3], ctx=ctx, timeout=3000)
+    ptrace = read_trace(tr3)
+    for line, fields in trace_check(ctx, "Trace_Prefix", tr3, timeout=3000):
+        e = ptrace[line - 1]
+        m = ", ".join("%s: <%s>" % (uncps(x["p"]), uncps(x["ns"])) for x in e["map"])
+        ctx.violations.append({"key": "prefix-map/" + fields[0], "detail": "%s: map [%s], IRI <%s>, suffix check %s -> %s %s:%s" % (fields[0], m, uncps(e["iri"]), e["chk"], e["out"]["k"], uncps(e["out"]["p"]), uncps(e["out"]["suffix"])),
+                               "event": e, "trace": tr3, "line": line})
+    ctx.traces_validated += len(ptrace)
     mc.join()
     ctx.rule = ("TurtlePretty.tla transcribes the pretty-printer's decision procedure (labelling incl. the cycle walk, subject types, list detection, traversal); TLC checks 'every triple written exactly once' on ALL 36,051 graphs "
                 "with <= 3 triples over 3 blank nodes + 1 IRI x {p, rdf:first, rdf:rest} x {blank nodes, IRI, rdf:nil}. TLC prints that universe and every %s graph goes through the real pretty Turtle/TriG serializer and parser "
                 "(6 prefix maps, 3 indentations). %d random shapes (blank-node cycles, shared/unreferenced blank nodes, well-formed and malformed lists, asserted-and-quoted triples, blank nodes across graphs, 22 valid/near-valid "
                 "numeric and boolean lexical forms, IRIs whose local part needs escaping) x {Turtle, TriG} x {streaming, pretty} x prefix maps (none, overlapping, empty prefix) x indentations; each input in a child process "
-                "(memory/time limits; a death is an event). TLC judges isomorphism by brute force. distinct = (configuration, dataset)" % ("12th" if ctx.quick() else "single", n))
+                "(memory/time limits; a death is an event). TLC judges isomorphism by brute force. Prefix.tla: the pair returned for an IRI has the longest qualifying namespace and recomposes to the IRI "
+                "(laws on 50,624 (map, IRI, check) states; the real PrefixMap for slices on the same universe). distinct = (configuration, dataset)" % ("12th" if ctx.quick() else "single", n))
     ctx.assumptions += ["syntactic validity = acceptance by the shipped parser (no TLA+ grammar of full Turtle)"]
 
 
